@@ -168,7 +168,9 @@ carquet_status_t carquet_schema_add_column(
 
     /* Track as leaf */
     schema->leaf_indices[schema->num_leaves] = elem_idx;
-    schema->max_def_levels[schema->num_leaves] = (repetition == CARQUET_REPETITION_OPTIONAL) ? 1 : 0;
+    schema->max_def_levels[schema->num_leaves] =
+        (repetition == CARQUET_REPETITION_OPTIONAL ||
+         repetition == CARQUET_REPETITION_REPEATED) ? 1 : 0;
     schema->max_rep_levels[schema->num_leaves] = (repetition == CARQUET_REPETITION_REPEATED) ? 1 : 0;
     schema->num_leaves++;
 
@@ -291,7 +293,8 @@ carquet_field_repetition_t carquet_schema_node_repetition(const carquet_schema_n
 int16_t carquet_schema_node_max_def_level(const carquet_schema_node_t* node) {
     /* node is nonnull per API contract */
     const parquet_schema_element_t* elem = (const parquet_schema_element_t*)node;
-    return (elem->repetition_type == CARQUET_REPETITION_OPTIONAL) ? 1 : 0;
+    return (elem->repetition_type == CARQUET_REPETITION_OPTIONAL ||
+            elem->repetition_type == CARQUET_REPETITION_REPEATED) ? 1 : 0;
 }
 
 int16_t carquet_schema_node_max_rep_level(const carquet_schema_node_t* node) {
